@@ -289,9 +289,12 @@ func (g *G) primary() E {
 		if g.NoWithExpr {
 			return atom(g.param())
 		}
-		return atom(cat(k("WITH"), pl("("), g.commaList("withexpr.vars", 1, 3, func(int) Frag {
-			return cat(g.name(posStrict), k("AS"), g.Expr())
-		}), p(","), g.Expr(), p(")")))
+		nv := g.count("withexpr.vars", 1, 3)
+		vars := g.list(nv, p(","), func(int) Frag { return cat(g.name(posStrict), k("AS"), g.Expr()) })
+		if nv > 0 {
+			vars = cat(vars, p(","))
+		}
+		return atom(cat(k("WITH"), pl("("), vars, g.Expr(), p(")")))
 	case "replace_fields":
 		return atom(cat(k("REPLACE_FIELDS"), pl("("), g.Expr(), p(","), g.commaList("replace_fields.args", 1, 3, func(int) Frag {
 			return cat(g.Expr(), k("AS"), g.path("replace_fields.path", 1, 3))
